@@ -278,6 +278,13 @@ def run_impl(module_name, cases, per_case_timeout=5.0, flags=(), extra_env=None)
                     outs = [json.loads(l) for l in f if l.strip()]
             except OSError:
                 pass
+            # trailer line of the worker's thread pass: results that differ when the calls run concurrently
+            if outs and isinstance(outs[-1], dict) and '_thread_diffs' in outs[-1]:
+                for j, r in outs.pop()['_thread_diffs']:
+                    if 0 <= j < len(outs) and isinstance(outs[j], dict):
+                        outs[j]['_threads'] = r
+                    elif j == -1 and outs and isinstance(outs[0], dict):
+                        outs[0]['_threads'] = r
             for j, (idx, _) in enumerate(sh_cases):
                 if j < len(outs):
                     results[idx] = outs[j]
@@ -387,6 +394,9 @@ def evaluate(prop, cases):
             ps = [{'kind': 'oracle', 'sig': 'impl-' + io_['out'], 'msg': 'implementation run ended with %s %s' % (io_['out'], io_.get('err', io_.get('stderr', '')))}]
         else:
             ps = prop.judge(c, io_, None if model_missing else model_out[i])
+            if isinstance(io_, dict) and '_threads' in io_:
+                ps = ps + [{'kind': 'oracle', 'sig': 'differs-when-called-concurrently-from-threads',
+                            'msg': 'the same call made while other threads use the library gives %s' % json.dumps(io_['_threads'])[:300]}]
         for p in ps:
             p['case'] = c
             p['impl'] = impl_out[i]
